@@ -32,6 +32,8 @@ func runC10(c *Ctx) {
 	runAcceptCloseRace(c)
 	runDialFailsWhileAnotherDialerRegisters(c)
 	runWsHandlerModeClose(c)
+	runWsListenerQueue(c)
+	runWsAcceptCloseRace(c)
 	defer func() { postCloseOps = false }()
 	n := 12
 	if c.Thorough() {
